@@ -37,6 +37,14 @@ Theorem C18_more_fuel_same_routes : forall f s h route rs, trace f s h route = S
 Proof. exact trace_fuel_mono. Qed.
 Print Assumptions C18_more_fuel_same_routes.
 
+(* termination: whenever some rank decreases along every reference that the tracer follows (i.e. on every acyclic
+   graph), fuel above the rank of the start element suffices; the acyclicity of reachable states is C06 *)
+Theorem C18_terminates_on_ranked_graphs : forall s (rank : positive -> nat),
+  (forall x y, step s x y -> (rank y < rank x)%nat) ->
+  forall f h route, (rank h < f)%nat -> trace f s h route <> None.
+Proof. exact trace_terminates. Qed.
+Print Assumptions C18_terminates_on_ranked_graphs.
+
 (* a diamond: programme -> content -> two objects sharing one pack -> nested pack -> channel: two routes *)
 Example C18_diamond :
   let e k refs := mkElem k None (mkId 0 0 0) 0 refs (fun _ => []) false None None false 0 in
